@@ -14,5 +14,5 @@ CONSTANTS
   Concrete <- NamesPlain
   Now = 100
   FixStaleDb = TRUE
-  OracleTarget = TRUE
+  LiveDbGuard = TRUE
   SafeKeys = TRUE
